@@ -48,6 +48,12 @@ pub(crate) const BONUS_CONSECUTIVE: u16 = PENALTY_GAP_START + PENALTY_GAP_EXTENS
 pub(crate) const BONUS_FIRST_CHAR_MULTIPLIER: u16 = 2;
 
 impl Config {
+    /// The largest bonus `bonus_for` can return: no occurrence can earn more than this.
+    #[inline]
+    pub(crate) fn max_bonus(&self) -> u16 {
+        max(self.bonus_boundary_white, self.bonus_boundary_delimiter)
+    }
+
     #[inline]
     pub(crate) fn bonus_for(&self, prev_class: CharClass, class: CharClass) -> u16 {
         if class > CharClass::Delimiter {
